@@ -198,6 +198,29 @@ def mstep (d : DSt) (toks : List String) : DSt × String :=
 def stepAll (d : DSt) (toks : List String) : DSt × String :=
   match toks with
   | "m" :: rest => mstep d rest
+  | "oracle" :: "op-nobefore" :: rest =>
+    -- whole-operator log: `runs` = per execution the context types it carried + exit code.
+    -- No Event is handed to the hook before the first SUCCESSFUL Synchronization execution
+    -- (`sync` = S, or G for a grouped binding), and an Event needs one to have happened.
+    match kv? "sync" rest, (kv? "runs" rest).map strList with
+    | some sy, some runs =>
+      let isSyncOk := fun (r : String) => match r.splitOn ":" with
+        | [k, "0"] => (k.splitOn sy).length > 1
+        | _ => false
+      let hasEvent := fun (r : String) => match r.splitOn ":" with
+        | k :: _ => (k.splitOn "E").length > 1
+        | _ => false
+      let before := runs.takeWhile (fun r => !isSyncOk r)
+      if before.any hasEvent then (d, s!"false event-before-successful-synchronization runs={showStrs runs}")
+      else (d, "true")
+    | _, _ => (d, "bad-op")
+  | "oracle" :: "op-group" :: rest =>
+    -- group form: the last Group execution's snapshot reflects the final matching state
+    match (kv? "last" rest).bind parseCache, (kv? "final" rest).bind parseCache with
+    | some last, some fin =>
+      if sortCache last == sortCache fin then (d, "true")
+      else (d, s!"false last-group-snapshot={showCache last} cluster={showCache fin}")
+    | _, _ => (d, "bad-op")
   | "oracle" :: "m-delivered" :: rest =>
     -- the property at monitor level: a change made in EVERY namespace of the monitor after the
     -- unlock settled reached the hook (want ⊆ got)
